@@ -752,6 +752,24 @@ func buildTargets() []*target {
 			}
 			return "verified"
 		}})
+	// the constraints blob of a runtime deployment is untrusted too: genuine attestations are verified
+	// AGAINST the mutated constraints (policy present / absent / partial, enclave lists, versions)
+	attV0, attV1 := mustRead("common/node/testdata/sgx_attestation_v0.bin"), mustRead("common/node/testdata/sgx_attestation_v1.bin")
+	add(&target{name: "sgx-constraints-verify", boundary: "runtime descriptors: TEE constraints blob, as consumed by node attestation verification", cbor: true,
+		path:  "CapabilityTEE.Verify(genuine attestation, constraints bytes) -> cbor.Unmarshal(SGXConstraints) -> ApplyDefaultConstraints -> quote.Verify(policy)",
+		seeds: [][]byte{mustRead("common/node/testdata/sgx_constraints_v0.bin"), constraints, {0xa1, 0x61, 0x76, 0x01}, {0xa1, 0x61, 0x76, 0x00}, {0xa0}},
+		run: func(data []byte) string {
+			out := ""
+			for i, att := range [][]byte{attV0, attV1} {
+				c := node.CapabilityTEE{Hardware: node.TEEHardwareIntelSGX, RAK: w.nodeSigner.Public(), Attestation: att}
+				if err := c.Verify(teeCfg, time.Unix(1671497404, 0), 100, data, w.nodeSigner.Public(), true); err != nil {
+					out += rej(err, fmt.Sprintf("rejected%d;", i))
+				} else {
+					out += fmt.Sprintf("verified%d;", i)
+				}
+			}
+			return out
+		}})
 	add(&target{name: "sgx-constraints", boundary: "runtime descriptors: TEE constraints blob", cbor: true,
 		path:  "cbor.Unmarshal(SGXConstraints) [UnmarshalCBOR v0/v1] -> ValidateBasic -> cbor.Marshal",
 		seeds: [][]byte{mustRead("common/node/testdata/sgx_constraints_v0.bin"), constraints},
